@@ -96,8 +96,12 @@ func resolveServer(ctx context.Context, serverName spec.ServerName, checkWellKno
 		var result *WellKnownResult
 		result, err = LookupWellKnown(ctx, serverName)
 		if err == nil {
-			// We don't want to check .well-known on the result
-			return resolveServer(ctx, result.NewAddress, false)
+			// A delegated name that isn't a server name makes the response invalid:
+			// carry on with step 4 for the name we were asked about.
+			if _, _, ok := spec.ParseAndValidateServerName(result.NewAddress); ok {
+				// We don't want to check .well-known on the result
+				return resolveServer(ctx, result.NewAddress, false)
+			}
 		}
 	}
 
